@@ -216,20 +216,93 @@ def r2_r3_spectrum(repo: Repo, rep):
         rep.check(R2, not offs, fi.site(), fi.fq, "kept mode counts are min(mode_num, available modes): no constant offset", str(offs[:2]), str(sorted(set(offs))[:2]))
         pads = [c for c in ast.walk(spec) if isinstance(c, ast.Call) and ends(attr_chain(c.func), "pad")]
         if pads:
-            amt = dump(pads[0].args[1]) if len(pads[0].args) > 1 else ""
-            ok = "self.mode_num - torch.tensor(" in amt and ".shape[1:-1])" in amt
-            rep.check(R3, ok, fi.site(), fi.fq, "padding amounts = mode_num - spectrum shape (negative = truncation), spatial axes only", amt[:140], amt[:140])
+            _pad_vector(rep, R3, fi, pname)
         break
     init = ci.methods.get("__init__")
     rep.saw(init)
     for p in paths(init.node, expand_self=False):
         if p.ret is RAISE:
             continue
-        fd = p.attrs.get("self.fourier_dims")
-        rep.check(R3, fd is not None and dump(fd).replace(" ", "") == "list(range(1,self.data_dim+1))", init.site(), init.fq, "transformed axes = the spatial axes 1..data_dim (not batch, not channels)", dump(fd), dump(fd))
+        _fourier_dims(rep, R3, init)
         k = p.attrs.get("self.fourier_kernel")
         rep.check(R2, k is not None and ends(attr_chain(k.func) if isinstance(k, ast.Call) else "", "Parameter") and "torch.cfloat" in dump(k), init.site(), init.fq, "the kernel is a complex nn.Parameter of shape (*modes, channels)", dump(k)[:100], dump(k)[:100])
         break
+
+
+def _pad_vector(rep, R3, fi, pname):
+    """partial evaluation of forward for 1, 2, 3 spatial axes: the list handed to F.pad must be
+    [0, 0] (channels) followed, from the last spatial axis to the first, by (0, mode_k - spectrum_k)"""
+    from ..absdom.listeval import Evaluator, Opaque, Vec1, UNKNOWN, norm
+    from ..absdom.poly import RF
+    for D in (1, 2, 3):
+        seen = []
+
+        def resolve(e, ev, f, D=D):
+            t = dump(e).replace(" ", "")
+            if t == "self.data_dim":
+                return D
+            if t == "self.mode_num":
+                return Vec1([RF.atom(f"M{k}") for k in range(D)])
+            if t == "self.fourier_dims":
+                return list(range(1, D + 1))
+            if isinstance(e, ast.Attribute) and e.attr == "shape":
+                try:
+                    base = ev.ev(e.value, f)
+                except Exception:
+                    return None
+                if isinstance(base, Opaque) and base.tag == "spectrum":
+                    return [RF.atom("B")] + [RF.atom(f"S{k}") for k in range(D)] + [RF.atom("C")]
+                if isinstance(base, Opaque) and base.tag == pname:
+                    return [RF.atom("B")] + [RF.atom(f"N{k}") for k in range(D)] + [RF.atom("C")]
+            if isinstance(e, ast.Name) and e.id == pname:
+                return Opaque(pname)
+            if isinstance(e, ast.Attribute) and (attr_chain(e) or "").startswith("torch."):
+                return Opaque(attr_chain(e))
+            if isinstance(e, ast.Attribute) and e.attr in ("device", "dtype"):
+                return Opaque(e.attr)
+            return None
+
+        def on_call(e, name, args, kws, ev, f):
+            if name in ("torch.fft.rfftn", "torch.fft.rfft", "torch.fft.rfft2"):
+                return Opaque("spectrum")
+            if name.endswith("functional.pad") or name in ("F.pad", "torch.nn.functional.pad", "nn.functional.pad"):
+                seen.append(args[1] if args and len(args) > 1 else kws.get("pad", UNKNOWN))
+                return Opaque("spectrum")
+            return None
+        Evaluator(resolve, on_call).run(fi.node.body, {})
+        if len(seen) != 1 or seen[0] is UNKNOWN or not isinstance(seen[0], (list, tuple)):
+            rep.undecided(R3, fi.site(), fi.fq, f"padding list evaluable for {D} spatial axes", f"{seen!r}"[:120])
+            continue
+        want = [0, 0]
+        for k in reversed(range(D)):
+            want += [0, RF.atom(f"M{k}") - RF.atom(f"S{k}")]
+        rep.check(R3, norm(list(seen[0])) == norm(want), fi.site(), fi.fq,
+                  f"{D} spatial axes: F.pad amounts = [0, 0] + [(0, mode_k - spectrum_k) for k = last..first] (negative = truncation, high-frequency end only)",
+                  f"{norm(list(seen[0]))}", f"D={D}: {norm(list(seen[0]))}")
+
+
+def _fourier_dims(rep, R3, init):
+    from ..absdom.listeval import Evaluator, Opaque, UNKNOWN, norm
+    from ..absdom.poly import RF
+    mn = "mode_num" if "mode_num" in init.params else (init.params[2] if len(init.params) > 2 else None)
+    for D in (1, 2, 3):
+        def resolve(e, ev, f):
+            if isinstance(e, ast.Name) and e.id in init.params:
+                return Opaque(e.id)
+            if isinstance(e, ast.Attribute) and (attr_chain(e) or "").startswith("torch."):
+                return Opaque(attr_chain(e))
+            return None
+
+        def on_call(e, name, args, kws, ev, f):
+            if name == "isinstance":
+                return False if args and isinstance(args[0], (list, tuple)) and "int" in dump(e.args[1]) else None
+            return None
+        fr = Evaluator(resolve, on_call).run(init.node.body, {mn: tuple(RF.atom(f"M{k}") for k in range(D))})
+        fd = fr.attrs.get("self.fourier_dims", UNKNOWN)
+        if fd is UNKNOWN or not isinstance(fd, (list, tuple)):
+            rep.undecided(R3, init.site(), init.fq, f"self.fourier_dims evaluable for {D} spatial axes", repr(fd)[:80])
+            continue
+        rep.check(R3, norm(list(fd)) == norm(list(range(1, D + 1))), init.site(), init.fq, f"{D} spatial axes: transformed axes = 1..{D} (not batch, not channels)", str(norm(list(fd))), f"D={D}: {norm(list(fd))}")
 
 
 def r4_fno_structure(repo: Repo, rep):
